@@ -124,6 +124,45 @@ fn spell(
     None
 }
 
+/// A path that differs from `path` only in a way a careless key might ignore.
+fn lookalike(path: &str, how: u64, may_be_css: bool) -> Option<String> {
+    let (dir, name) = path.rsplit_once('/')?;
+    if name == "index.scss" || name == "_index.scss" {
+        // x/index.scss <-> x.scss next to the directory x
+        let (pdir, x) = dir.rsplit_once('/')?;
+        return Some(format!("{pdir}/{x}.scss"));
+    }
+    let stem = name.trim_end_matches(".scss").trim_end_matches(".css");
+    let ext = if name.ends_with(".css") { ".css" } else { ".scss" };
+    let bare = stem.trim_start_matches('_');
+    Some(match how {
+        0 => {
+            // letter case
+            let flipped: String = bare.chars().map(|c| if c == 'f' { 'F' } else { c }).collect();
+            format!("{dir}/{}{flipped}{ext}", if stem.starts_with('_') { "_" } else { "" })
+        }
+        1 => {
+            // partial underscore
+            if stem.starts_with('_') {
+                format!("{dir}/{bare}{ext}")
+            } else {
+                format!("{dir}/_{bare}{ext}")
+            }
+        }
+        2 => {
+            // extension
+            if ext == ".css" {
+                format!("{dir}/{stem}.scss")
+            } else if may_be_css {
+                format!("{dir}/{stem}.css")
+            } else {
+                return None;
+            }
+        }
+        _ => format!("{dir}/{bare}/index.scss"),
+    })
+}
+
 pub fn gen_graph(p: &GraphParams, rng: &mut Rng) -> GraphSpec {
     let mut bases = vec!["w".to_string()];
     for i in 0..p.nlp {
@@ -193,11 +232,20 @@ pub fn gen_graph(p: &GraphParams, rng: &mut Rng) -> GraphSpec {
             6 => format!("f{i}/index.scss"),
             _ => format!("f{i}/_index.scss"),
         };
-        paths.push(if dir.is_empty() {
-            format!("{base}/{fname}")
-        } else {
-            format!("{base}/{dir}/{fname}")
-        });
+        let mut path = if dir.is_empty() { format!("{base}/{fname}") } else { format!("{base}/{dir}/{fname}") };
+        // look-alike of an earlier file: another file whose name differs only in letter case, in the
+        // partial underscore, in the extension, or in being a directory index - distinct files that a
+        // sloppy lock/cache key would confuse
+        if i >= 2 && rng.chance(1, 6) {
+            let j = 1 + rng.usize(i - 1);
+            if let Some(twin) = lookalike(&paths[j], rng.below(4), css_leaf) {
+                // a css file cannot load anything: only a leaf drawn as css may get a css name
+                if (!twin.ends_with(".css") || css_leaf) && !paths.contains(&twin) && !paths.iter().any(|q| q.starts_with(&format!("{}/", twin.trim_end_matches(".scss").trim_end_matches(".css")))) {
+                    path = twin;
+                }
+            }
+        }
+        paths.push(path);
     }
     let mut extra_dirs = vec![];
     for b in &bases {
@@ -255,7 +303,7 @@ pub fn gen_graph(p: &GraphParams, rng: &mut Rng) -> GraphSpec {
                 && kind != LoadKind::Import
                 && !paths[j].ends_with(".css")
                 && rng.chance(1, 3);
-            stmts.push(Stmt::Load { kind, url, target: j, wrap, ns: format!("n{k}"), with_cfg });
+            stmts.push(Stmt::Load { kind, url, target: j, wrap, ns: format!("n{k}"), with_cfg, filter: 0 });
         }
         let pos = rng.usize(stmts.len() + 1);
         stmts.insert(pos, if p.c03 { Stmt::ModuleVars } else { Stmt::Marker });
